@@ -1581,3 +1581,7 @@ mod test {
         assert_eq!(actual, &expected);
     }
 }
+
+#[cfg(kani)]
+#[path = "/verif/kani/arrow-select/zip.rs"]
+mod verif_kani;
